@@ -491,7 +491,7 @@ pub fn c04(tier: &str, seed: u64) -> i32 {
         }
         // key slot classes: a freed key slot of every class is reused under the iterator oracle
         if ctx.run.violations.is_empty() {
-            crate::props_a::class_ladder_keys(&mut ctx, "C04", crate::engine_a::O_ITER, 0, 2);
+            crate::props_a::class_ladder_keys(&mut ctx, "C04", crate::engine_a::O_ITER, 0, false, 1);
         }
         // histories in which key records are relocated and chains re-linked (offsets crossing 16 KiB)
         let specs = vec![
